@@ -105,7 +105,7 @@ def make_harness(kind, atol_none=False, canary=False, real_energies=False, zero_
             "csr_array": Builtin("csr_array", lambda e, a, shape=None: pw.csr_from_coo(e, a, shape)),
         })
         sympy_ns = Namespace("sympy", {
-            "MatrixBase": TypeObj("MatrixBase"), "zoo": pw.ZOO, "S": Namespace("S", {"Zero": 0}),
+            "MatrixBase": TypeObj("MatrixBase"), "zoo": pw.ZOO, "S": Namespace("S", {"Zero": 0, "One": 1}),
             "Matrix": Builtin("sympy.Matrix", lambda e, x: PSym(x.shape, x.elem, "Matrix", True)),
         })
         eng.globals.update({"np": pw.make_np(), "sparse": sparse_ns, "sympy": sympy_ns,
